@@ -52,8 +52,7 @@
                    sf OEND <oid> cancelled = drop of `state`.  Lines without a model step are obligations: sf OSTART <oid> and
                    `os rxdrop <ready>` before the user future's first step, `os rxdrop <done>` before the signal, the `os send` / `os txdrop`
                    line of a silent step before the frame below its waker calls moves; each os send / txdrop / rxdrop at most once.
-                   A second pending poll of queue_ready REPLACES the owner's waker in the real oneshot; the model's cell keeps both (and
-                   would call the task waker twice): the driver keeps the newest (counted oneshot_rereg, like the suspend channel).
+                   A second pending poll of queue_ready replaces the owner's waker in the model as in the real oneshot (FY .. YPrecv).
                    At QUIET the slot jobs of dropped calls may still be queued (the harness counts a dropped call as finished).
                    sf POLL / YNEW / YDONE are not checked; markers of OTHER operations' bodies (sf OSTART / OEND) are ignored as before.
      end of log    the replay stops at `api QUIET` (pool >= 1; wait_all returned) or `api END` (pool 0: the harness then drains
@@ -353,13 +352,6 @@ let replay (p : pinfo) (evs : ev array) : stats =
           | FJob (JFut (_, _, PAwait e :: _), _, _) when List.mem (i e) p.susp_ev && List.length (getev s1 (i e)).wakers >= 2 ->
             st.rereg <- st.rereg + 1;
             { s1 with evs = List.mapi (fun k (c : evcell) -> if k = i e then { c with wakers = [List.hd c.wakers] } else c) s1.evs }
-          (* the receiver of queue_ready is a oneshot too: a second pending poll by the owner REPLACES its task waker, the model's
-             cell (FY .. YPrecv: wakers := WTask a :: wakers) keeps both and would call it twice at the send: keep the newest only *)
-          | FY (YPrecv, y, YQueue _, _) when (let ws = (getev s1 (i y.y_r)).wakers in List.length (List.filter (fun w -> w = WTask (nat_of_int a)) ws) >= 2) ->
-            st.rereg <- st.rereg + 1;
-            { s1 with evs = List.mapi (fun k (c : evcell) -> if k <> i y.y_r then c else
-                                          let seen = ref false in
-                                          { c with wakers = List.filter (fun w -> if w = WTask (nat_of_int a) then (if !seen then false else (seen := true; true)) else true) c.wakers }) s1.evs }
           | _ -> s1) in
       let wakes_above (st : frame list) = let rec go n = function FWake _ :: r -> go (n + 1) r | _ -> n in go 0 st in
       let tx c = (match List.nth_opt s1.actors a with
